@@ -46,6 +46,8 @@ class NLRI(object):
 
     @staticmethod
     def construct_prefix_v4(masklen, prefix_str):
+        if not 0 <= masklen <= 32:
+            raise ValueError('IPv4 prefix length %s is not in 0..32' % masklen)
         ip_hex = struct.pack('!I', netaddr.IPNetwork(prefix_str).value)
         if 16 < masklen <= 24:
             ip_hex = ip_hex[0:3]
@@ -60,6 +62,8 @@ class NLRI(object):
     @staticmethod
     def construct_prefix_v6(prefix):
         mask = int(prefix.split('/')[1])
+        if not 0 <= mask <= 128:
+            raise ValueError('IPv6 prefix length %s is not in 0..128' % mask)
         # a prefix occupies ceil(mask / 8) octets
         return netaddr.IPNetwork(prefix).ip.packed[0: (mask + 7) // 8]
 
